@@ -169,6 +169,9 @@ func init() {
 			panic(pathEnd{"exit"})
 		}
 	}
+	in["github.com/gokrazy/rsync/internal/version.Read"] = func(ex *Exec, fn *ssa.Function, args []Value) Value {
+		return Str{S: "gokrazy/rsync (version information is not modelled)"}
+	}
 	in["os.Getpid"] = func(ex *Exec, fn *ssa.Function, args []Value) Value { return ex.st.Const(64, 4242) }
 	in["os.Getuid"] = func(ex *Exec, fn *ssa.Function, args []Value) Value { return ex.st.Const(64, 0) }
 	in["os.Getenv"] = func(ex *Exec, fn *ssa.Function, args []Value) Value { return Str{} }
@@ -434,6 +437,8 @@ func init() {
 		return ex.indexString(mkStr(sliceBytes(ex, args[0].(Slice))), mkStr(sliceBytes(ex, args[1].(Slice))))
 	}
 	in["bytes.Index"] = in["internal/bytealg.Index"]
+	in["internal/stringslite.Clone"] = func(ex *Exec, fn *ssa.Function, args []Value) Value { return args[0] }
+	in["strings.Clone"] = in["internal/stringslite.Clone"]
 	in["strings.HasPrefix"] = func(ex *Exec, fn *ssa.Function, args []Value) Value {
 		s, p := args[0].(Str), args[1].(Str)
 		if s.Len() < p.Len() {
